@@ -3,6 +3,7 @@
 -/
 import PolyVerif.Props.C06Valid
 import PolyVerif.Props.C06Dedup
+import PolyVerif.Props.C06Node
 
 namespace PolyVerif
 namespace C06
@@ -25,6 +26,25 @@ theorem gltf_scene_full_partial (s : Scene) (w : W) (hs : SceneWF s) (h : writeS
     valid w.doc w.buf = true ∧ carriesScene s w.doc w.buf = true
     ∧ MatT (fun i => s.texHeap[i]?) w ∧ MeshT w :=
   ⟨gltf_scene_valid s w hs.1 h, gltf_carries_scene s w ⟨hs.1.1, hs.2⟩ h, gltf_dedup_consistent s w h⟩
+
+/-- the three oracle predicates for one scene and the state the writer reached -/
+def C06_scene_full_for (s : Scene) (w : W) : Prop :=
+  valid w.doc w.buf = true ∧ carriesScene s w.doc w.buf = true ∧ dedupOK s w.doc = true
+
+/-- `SceneWF` plus the meaning of `eqKey` (`ExtCongr`: material-extension values of the scene that compare `==` in Go —
+    same id, same key — are the same value) -/
+def SceneWF2 (s : Scene) : Prop := SceneWF s ∧ ExtCongr s
+
+/-- THE SCENE-LEVEL PROPERTY (everything except the alignment clause, which is false of the code:
+    `gltf_alignment_counterexample`).  For EVERY well-formed scene the writer accepts, the written document and buffer
+    satisfy `valid` (structural consistency: lengths, every reference, every byte range, min/max, index values, attribute
+    counts, extensions declared), `carriesScene` (decoding returns exactly the stored image of every model's attributes
+    and indices; node and instance transforms are the model's) and `dedupOK` (shared meshes / materials / textures are
+    stored once and referenced consistently; every model's material is shown by the material it references).
+    `C06_scene_full` (the same without hypotheses) is NOT a theorem and is not expected to be: an ill-formed mesh (index
+    out of range, attribute arrays of different lengths) is written as it is. -/
+theorem gltf_scene_full (s : Scene) (w : W) (hs : SceneWF2 s) (h : writeScene s = .ok w) : C06_scene_full_for s w :=
+  ⟨gltf_scene_valid s w hs.1.1 h, gltf_carries_scene s w ⟨hs.1.1.1, hs.1.2⟩ h, gltf_dedup_ok s w hs.1.1.1 hs.2 h⟩
 
 /-! ### non-vacuity of the scene hypotheses -/
 
@@ -71,6 +91,9 @@ theorem exScene_wf : SceneWF exScene := by
     simp only [List.mem_singleton] at hm; subst hm
     unfold KeysOK; rw [exMesh_written]
     simp [gltfAttrName]
+
+theorem exScene_wf2 : SceneWF2 exScene :=
+  ⟨exScene_wf, by intro a ha; simp [exScene] at ha⟩
 
 end C06
 end PolyVerif
